@@ -140,6 +140,11 @@ func (c *Ctx) Effect(fn *ssa.Function, e0 Eff) int {
 				continue
 			}
 			arg = CanonD(e.Call.Common().Value, 9)
+		} else if e0.Arg == -2 { // receiver of a statically dispatched method
+			if e.Call.Common().IsInvoke() || e.Callee.Recv == "" || len(e.Call.Common().Args) == 0 {
+				continue
+			}
+			arg = CanonD(e.Call.Common().Args[0], 9)
 		} else if e0.Arg < len(e.Args) {
 			arg = e.Args[e0.Arg]
 		} else {
